@@ -415,8 +415,11 @@ func c19distinctKmers(s string, k int) bool {
 func (x *c19ctx) graphCheck(c c19case) {
 	r := x.r
 	k := c.K
-	g := MakeDeBruijnGraph(k)
+	var g *DeBruijnGraph
 	if p := c19try(func() {
+		if g = MakeDeBruijnGraph(k); g == nil {
+			panic("MakeDeBruijnGraph returned nil")
+		}
 		for i, s := range c.Seqs {
 			g.Push(x.seq(s, c.Counts[i]))
 			r.Trans(1)
@@ -434,9 +437,17 @@ func (x *c19ctx) graphCheck(c c19case) {
 func (x *c19ctx) graphHistCheck(c c19case) {
 	r := x.r
 	k := c.K
-	g := MakeDeBruijnGraph(k)
+	r.Count("graph_histories", 1) // histories generated (whatever the implementation answers)
+	var g *DeBruijnGraph
 	for i := range c.Seqs {
-		if p := c19try(func() { g.Push(x.seq(c.Seqs[i], c.Counts[i])) }); p != "" {
+		if p := c19try(func() {
+			if g == nil {
+				if g = MakeDeBruijnGraph(k); g == nil {
+					panic("MakeDeBruijnGraph returned nil")
+				}
+			}
+			g.Push(x.seq(c.Seqs[i], c.Counts[i]))
+		}); p != "" {
 			x.violate("DeBruijnGraph.Push/panic:history", c, func() string { return fmt.Sprintf("k=%d pushes=%v counts=%v step %d: ", k, c.Seqs, c.Counts, i) }, "%s", p)
 			return
 		}
@@ -452,7 +463,6 @@ func (x *c19ctx) graphHistCheck(c c19case) {
 	}
 	// the same questions again on the final graph
 	x.graphJudge(g, c19case{Kind: "graph", K: k, Seqs: c.Seqs, Counts: c.Counts}, c, ":asked-twice")
-	r.Count("graph_histories", 1)
 }
 
 // graphJudge compares graph g with the model of the sequences of c. replay is the case stored with a
@@ -485,7 +495,20 @@ func (x *c19ctx) graphJudge(g *DeBruijnGraph, c c19case, replay c19case, suffix 
 	if !pure {
 		r.Count("graph_ambiguous_sets", 1)
 	}
-	if !(c19wEqual(ma, g) || c19wEqual(mb, g)) {
+	// a single sequence without repeated k-mer (section 3): decided on the model, counted before anything is
+	// asked of the implementation
+	singleDistinct := len(c.Seqs) == 1 && pure && len(c.Seqs[0]) >= k && c19distinctKmers(c.Seqs[0], k)
+	singleAcyclic := false
+	if singleDistinct {
+		if md := c19analyse(ma, k); md.cyclic {
+			r.Count("single_distinct_but_cyclic(k-1 repeat)", 1)
+		} else {
+			singleAcyclic = true
+			r.Count("single_distinct_acyclic", 1)
+		}
+	}
+	asModel := c19wEqual(ma, g) || c19wEqual(mb, g)
+	if !asModel {
 		ma2, mb2 := c19models(c.Seqs, c.Counts, k, k+1)
 		switch {
 		case hasLenK && (c19wEqual(ma2, g) || c19wEqual(mb2, g)):
@@ -507,6 +530,18 @@ func (x *c19ctx) graphJudge(g *DeBruijnGraph, c c19case, replay c19case, suffix 
 
 	// ---- 2. cycle, heaviest path, consensus: judged on the graph as it was actually built
 	d := c19analyse(actual, k)
+	{ // vacuity counters of part B: the shape of the graph of the MODEL (it is the graph built whenever the
+		// weights were right; otherwise the first reading of the statement is analysed)
+		md := d
+		if !asModel {
+			md = c19analyse(ma, k)
+		}
+		if md.cyclic {
+			r.Count("model_graph_cyclic", 1)
+		} else if len(md.w) > len(md.sources) {
+			r.Count("model_graph_acyclic_with_edges", 1)
+		}
+	}
 	{ // distinct graphs reached (order-independent hash of the node:weight set)
 		h := uint64(k) * 0x9e3779b97f4a7c15
 		for n, w := range actual {
@@ -575,12 +610,9 @@ func (x *c19ctx) graphJudge(g *DeBruijnGraph, c c19case, replay c19case, suffix 
 
 	// ---- 3. a single sequence without repeated k-mer comes back unchanged (demanded when the graph
 	// of the statement is acyclic, since the statement also says that a cyclic graph yields no path)
-	if len(c.Seqs) == 1 && pure && len(c.Seqs[0]) >= k && c19distinctKmers(c.Seqs[0], k) {
+	if singleDistinct {
 		s := c.Seqs[0]
-		if md := c19analyse(ma, k); md.cyclic {
-			r.Count("single_distinct_but_cyclic(k-1 repeat)", 1)
-		} else {
-			r.Count("single_distinct_acyclic", 1)
+		if singleAcyclic {
 			var cons *obiseq.BioSequence
 			var err error
 			p := c19try(func() { cons, err = g.LongestConsensus("c", 0) })
@@ -678,7 +710,11 @@ func (w *c19kmT[T]) run(seq *obiseq.BioSequence, recycled bool) (vals [][4]uint6
 }
 
 func c19mkKm[T obifp.FPUint[T]](limbs, k int, sparse bool, refs obiseq.BioSequenceSlice) c19km {
-	return &c19kmT[T]{km: NewKmerMap[T](refs, uint(k), sparse, -1), limbs: limbs}
+	km := NewKmerMap[T](refs, uint(k), sparse, -1)
+	if km == nil {
+		panic("NewKmerMap returned nil") // (inside c19try: reported as the outcome of the constructor)
+	}
+	return &c19kmT[T]{km: km, limbs: limbs}
 }
 
 var c19devnull *os.File
@@ -801,6 +837,7 @@ func (x *c19ctx) indexCheck(c c19case) {
 	// c.K is the size NewKmerMap is asked for; the map tells the size it works with (k from here on)
 	km := x.kmFor(c.Width, c.K, c.Sparse, c19kmCache)
 	if km == nil {
+		x.indexFacts(c, c.K, false, 0) // no usable map: the facts of the case for the size asked
 		return
 	}
 	k = km.ksize()
@@ -816,6 +853,10 @@ func (x *c19ctx) indexCheck(c c19case) {
 			return fmt.Sprintf("Uint%d k=%d (NewKmerMap asked for %d) %s seq=%q: ", c.Width, k, c.K, mode, s)
 		}, format, a...)
 	}
+	// vacuity counters of part E: whatever way this function is left, the windows not yet visited by the
+	// comparison loop below are counted on the model
+	factsFrom := 0
+	defer func() { x.indexFacts(c, k, adapted != "", factsFrom) }()
 	rs := c19rc(s)
 	fv, fs, p := km.run(obiseq.NewBioSequence("f", []byte(s), ""), false)
 	if p != "" {
@@ -896,6 +937,7 @@ func (x *c19ctx) indexCheck(c c19case) {
 	for i := 0; i < want; i++ {
 		w := s[i : i+k]
 		estr, ebases, fwSmaller, _ := c19canon(w, c.Sparse)
+		factsFrom = i + 1
 		if fwSmaller && i > 0 {
 			r.Count("index_forward_smaller_after_first_window", 1)
 			if adapted != "" {
@@ -928,6 +970,23 @@ func (x *c19ctx) indexCheck(c c19case) {
 	}
 }
 
+// indexFacts counts, on the model alone, the windows from index `from` on of a sequence over acgt whose
+// forward strand is the canonical one (what part E is there for).
+func (x *c19ctx) indexFacts(c c19case, k int, adapted bool, from int) {
+	s := c.Seqs[0]
+	if k < 1 || !c19pure(s) {
+		return
+	}
+	for i := max(from, 1); i+k <= len(s); i++ {
+		if _, _, fwSmaller, _ := c19canon(s[i:i+k], c.Sparse); fwSmaller {
+			x.r.Count("index_forward_smaller_after_first_window", 1)
+			if adapted {
+				x.r.Count("index_size_adapted_forward_smaller_after_first_window", 1)
+			}
+		}
+	}
+}
+
 // ---- Query on an index built by NewKmerMap from reference sequences
 
 type c19qidx struct {
@@ -936,6 +995,13 @@ type c19qidx struct {
 	objs   []*obiseq.BioSequence
 	sets   []map[string]bool // model: canonical k-mers (bases of the key) of each indexed sequence
 	fwsets []map[string]bool // its k-mers as written (forward strand only), for the vacuity counters
+}
+
+func (q *c19qidx) ksize() int {
+	if q.km != nil {
+		return q.km.ksize()
+	}
+	return q.c.K
 }
 
 // c19canonSet: the canonical k-mers of s on strings (windows holding an ambiguity code give none)
@@ -961,14 +1027,12 @@ func (x *c19ctx) newQueryIndex(c c19case) *c19qidx {
 	km, p := c19newKm(c.Width, c.K, c.Sparse, q.objs...)
 	if p != "" {
 		x.r.Violate("NewKmerMap/panic:with-sequences", fmt.Sprintf("NewKmerMap[Uint%d](%d sequences, k=%d sparse=%v) panics: %s", c.Width, len(q.objs), c.K, c.Sparse, p), c)
-		return nil
+	} else if x.kmInRange(km, c.Width, c.K) {
+		q.km = km
 	}
-	if !x.kmInRange(km, c.Width, c.K) {
-		return nil
-	}
-	q.km = km
+	// (without a usable map q.km stays nil: the queries are then only counted, on the model of the size asked)
 	for _, s := range c.Seqs[1:] {
-		cs, fw := c19canonSet(s, km.ksize(), c.Sparse)
+		cs, fw := c19canonSet(s, q.ksize(), c.Sparse)
 		q.sets = append(q.sets, cs)
 		q.fwsets = append(q.fwsets, fw)
 	}
@@ -983,7 +1047,7 @@ func (x *c19ctx) queryCheck(q *c19qidx, s string) {
 	r := x.r
 	c := q.c
 	c.Seqs = append([]string{s}, q.c.Seqs[1:]...)
-	k := q.km.ksize()
+	k := q.ksize()
 	mode, adapted := "dense", ""
 	if c.Sparse {
 		mode = "sparse"
@@ -991,7 +1055,6 @@ func (x *c19ctx) queryCheck(q *c19qidx, s string) {
 	if k != c.K {
 		adapted = ":size-adapted-by-NewKmerMap"
 	}
-	r.Eval(1)
 	viol := func(key, format string, a ...any) {
 		x.violate(key+":"+mode+adapted, c, func() string {
 			return fmt.Sprintf("Uint%d k=%d (NewKmerMap asked for %d) %s, index of %d sequences, query %q: ", c.Width, k, c.K, mode, len(q.objs), s)
@@ -1019,6 +1082,23 @@ func (x *c19ctx) queryCheck(q *c19qidx, s string) {
 			onlyRev = onlyRev || !shared
 		}
 	}
+	// vacuity counters of part Q: facts of the query generated, counted before the index is asked
+	if nwant > 0 {
+		r.Count("query_with_matches", 1)
+		if nwant < len(q.objs) {
+			r.Count("query_matches_some_but_not_all", 1)
+		}
+		if onlyRev {
+			r.Count("query_matches_only_through_the_reverse_strand", 1)
+			if adapted != "" {
+				r.Count("query_size_adapted_matches_only_through_the_reverse_strand", 1)
+			}
+		}
+	}
+	if q.km == nil {
+		return
+	}
+	r.Eval(1)
 	rs := c19rc(s)
 	var got [2]map[*obiseq.BioSequence]int
 	for strand, qs := range []string{s, rs} {
@@ -1054,18 +1134,6 @@ func (x *c19ctx) queryCheck(q *c19qidx, s string) {
 		if got[0][o] != got[1][o] {
 			viol("KmerMap.Query/strand-variant-score", "indexed sequence %d %q: score %d for the query, %d for its reverse complement %q", j, c.Seqs[1+j], got[0][o], got[1][o], rs)
 			return
-		}
-	}
-	if nwant > 0 {
-		r.Count("query_with_matches", 1)
-		if nwant < len(q.objs) {
-			r.Count("query_matches_some_but_not_all", 1)
-		}
-		if onlyRev {
-			r.Count("query_matches_only_through_the_reverse_strand", 1)
-			if adapted != "" {
-				r.Count("query_size_adapted_matches_only_through_the_reverse_strand", 1)
-			}
 		}
 	}
 }
@@ -1123,9 +1191,16 @@ func (x *c19ctx) count4Check(c c19case, reuse *c19fm) {
 			}
 		}
 	}
+	if len(s) >= 4 {
+		r.Count("count4_sequences_with_4mers", 1)
+	}
 	seq := obiseq.NewBioSequence("s", []byte(s), "")
 	var fresh *Table4mer
-	if p := c19try(func() { fresh = Count4Mer(seq, nil, nil) }); p != "" {
+	if p := c19try(func() {
+		if fresh = Count4Mer(seq, nil, nil); fresh == nil {
+			panic("Count4Mer returned nil")
+		}
+	}); p != "" {
 		key := "Count4Mer/panic"
 		if len(s) == 3 {
 			key += ":sequence-of-length-3"
@@ -1137,14 +1212,15 @@ func (x *c19ctx) count4Check(c c19case, reuse *c19fm) {
 	if reuse != nil {
 		// recycled buffer and table (as obitag/obirefidx do): leftovers of the previous sequence must vanish
 		var got *Table4mer
-		if p := c19try(func() { got = Count4Mer(seq, &reuse.buf, &reuse.tab) }); p != "" {
+		if p := c19try(func() {
+			if got = Count4Mer(seq, &reuse.buf, &reuse.tab); got == nil {
+				panic("Count4Mer returned nil")
+			}
+		}); p != "" {
 			r.Violate("Count4Mer/panic", fmt.Sprintf("seq=%q recycled: %s", s, p), c)
 			return
 		}
 		cmp("recycled-table", got)
-	}
-	if len(s) >= 4 {
-		r.Count("count4_sequences_with_4mers", 1)
 	}
 	r.Trans(1)
 }
@@ -1174,7 +1250,9 @@ func (x *c19ctx) count4HistCheck(c c19case, objs [2]*obiseq.BioSequence, want *[
 		var got *Table4mer
 		if p := c19try(func() {
 			Count4Mer(objs[0], pb, pt)
-			got = Count4Mer(objs[1], pb, pt)
+			if got = Count4Mer(objs[1], pb, pt); got == nil {
+				panic("Count4Mer returned nil")
+			}
 		}); p != "" {
 			r.Violate("Count4Mer/panic:history:"+mode, fmt.Sprintf("%q then %q: %s", c.Seqs[0], c.Seqs[1], p), c)
 			continue
@@ -1207,13 +1285,18 @@ func (x *c19ctx) common4Check(c c19case) {
 	for i := 0; i < 256; i++ {
 		want += min(a[i], b[i])
 	}
-	ta := Count4Mer(obiseq.NewBioSequence("a", []byte(c.Seqs[0]), ""), nil, nil)
-	tb := Count4Mer(obiseq.NewBioSequence("b", []byte(c.Seqs[1]), ""), nil, nil)
-	if got := Common4Mer(ta, tb); got != want {
-		r.Violate("Common4Mer/wrong-count", fmt.Sprintf("%q vs %q: %d shared 4-mer occurrences, want %d", c.Seqs[0], c.Seqs[1], got, want), c)
-	}
 	if want > 0 {
 		r.Count("common4_pairs_sharing", 1)
+	}
+	var got int
+	if p := c19try(func() {
+		ta := Count4Mer(obiseq.NewBioSequence("a", []byte(c.Seqs[0]), ""), nil, nil)
+		tb := Count4Mer(obiseq.NewBioSequence("b", []byte(c.Seqs[1]), ""), nil, nil)
+		got = Common4Mer(ta, tb)
+	}); p != "" {
+		r.Violate("Common4Mer/panic", fmt.Sprintf("%q vs %q: %s", c.Seqs[0], c.Seqs[1], p), c)
+	} else if got != want {
+		r.Violate("Common4Mer/wrong-count", fmt.Sprintf("%q vs %q: %d shared 4-mer occurrences, want %d", c.Seqs[0], c.Seqs[1], got, want), c)
 	}
 }
 
@@ -1258,9 +1341,7 @@ func (x *c19ctx) dispatch(c c19case) {
 	case "index":
 		x.indexCheck(c)
 	case "query":
-		if q := x.newQueryIndex(c); q != nil {
-			x.queryCheck(q, c.Seqs[0])
-		}
+		x.queryCheck(x.newQueryIndex(c), c.Seqs[0])
 	case "count4":
 		x.count4Check(c, &c19fm{buf: []byte{1, 2, 3}, tab: Table4mer{7: 9, 255: 1}})
 	case "common4":
@@ -1272,6 +1353,9 @@ func (x *c19ctx) dispatch(c c19case) {
 
 func TestVerifC19(t *testing.T) {
 	log.SetOutput(io.Discard)
+	// a logrus Fatal raised by the code under test must not end the shard: it becomes a panic, which c19try
+	// (around every implementation call) reports as the outcome of that call
+	log.StandardLogger().ExitFunc = func(code int) { panic(fmt.Sprintf("log.Fatal (exit status %d)", code)) }
 	// the harness is single-threaded and 16 shards run side by side: keep the Go runtime (GC workers)
 	// from oversubscribing the machine
 	runtime.GOMAXPROCS(2)
@@ -1361,12 +1445,16 @@ func TestVerifC19(t *testing.T) {
 		r.Count("cpu_ms_part_"+name, cpu()-c0)
 		r.Count("evals_part_"+name, r.Evaluations-e0)
 		if !stop && only == "" {
-			// a completed part must have exercised what it is there for (evaluated on the merged counters)
+			// a completed part must have exercised what it is there for (evaluated on the merged counters);
+			// every counter named here is a fact of the cases GENERATED (decided on the model before the
+			// implementation is asked), never of what the implementation answered
 			for _, c := range map[string][]string{
 				"A": {"single_distinct_acyclic"},
-				"B": {"graph_acyclic_with_edges", "graph_cyclic"},
-				"E": {"index_forward_smaller_after_first_window", "index_size_adapted_forward_smaller_after_first_window"},
-				"Q": {"query_matches_only_through_the_reverse_strand", "query_size_adapted_matches_only_through_the_reverse_strand", "query_matches_some_but_not_all"},
+				"B": {"model_graph_acyclic_with_edges", "model_graph_cyclic"},
+				// (the *_size_adapted_* counters depend on what NewKmerMap does with a size of the wrong
+				// parity, which is left to it: information only)
+				"E": {"index_forward_smaller_after_first_window"},
+				"Q": {"query_matches_only_through_the_reverse_strand", "query_matches_some_but_not_all"},
 				"G": {"count4_sequences_with_4mers"},
 				"H": {"common4_pairs_sharing"},
 				"J": {"graph_histories"},
@@ -1377,6 +1465,10 @@ func TestVerifC19(t *testing.T) {
 		}
 	}
 
+	// Order (breadth first): the cheap parts, one per class of question (4-mer tables, single-sequence
+	// graphs, ambiguity codes, Query, short indexed sequences, call histories, triples), run before the
+	// four deep enumerations (E, K, B, D: 85% of the CPU time), so that a run cut by its deadline or by a
+	// tree that is slow has still asked every kind of question.
 	// ---- G. 4-mer tables
 	part("G", func() {
 		c4 := verifkit.AllStrings("acgt", 1, c4Max)
@@ -1395,7 +1487,11 @@ func TestVerifC19(t *testing.T) {
 		tabs := make([]*Table4mer, len(cm))
 		naive := make([][256]int, len(cm))
 		for i, s := range cm {
-			if p := c19try(func() { tabs[i] = Count4Mer(obiseq.NewBioSequence("s", []byte(s), ""), nil, nil) }); p != "" {
+			if p := c19try(func() {
+				if tabs[i] = Count4Mer(obiseq.NewBioSequence("s", []byte(s), ""), nil, nil); tabs[i] == nil {
+					panic("Count4Mer returned nil")
+				}
+			}); p != "" {
 				r.Violate("Count4Mer/panic", fmt.Sprintf("seq=%q: %s", s, p), c19case{Kind: "count4", Seqs: []string{s}})
 				tabs[i] = &Table4mer{}
 			}
@@ -1411,12 +1507,15 @@ func TestVerifC19(t *testing.T) {
 					want += min(naive[i][c], naive[j][c])
 				}
 				r.Eval(1)
-				if got := Common4Mer(tabs[i], tabs[j]); got != want {
-					r.Violate("Common4Mer/wrong-count", fmt.Sprintf("%q vs %q: %d shared 4-mer occurrences, want %d", cm[i], cm[j], got, want),
-						c19case{Kind: "common4", Seqs: []string{cm[i], cm[j]}})
-				}
 				if want > 0 {
 					r.Count("common4_pairs_sharing", 1)
+				}
+				var got int
+				if p := c19try(func() { got = Common4Mer(tabs[i], tabs[j]) }); p != "" {
+					r.Violate("Common4Mer/panic", fmt.Sprintf("%q vs %q: %s", cm[i], cm[j], p), c19case{Kind: "common4", Seqs: []string{cm[i], cm[j]}})
+				} else if got != want {
+					r.Violate("Common4Mer/wrong-count", fmt.Sprintf("%q vs %q: %d shared 4-mer occurrences, want %d", cm[i], cm[j], got, want),
+						c19case{Kind: "common4", Seqs: []string{cm[i], cm[j]}})
 				}
 			}
 		}
@@ -1470,37 +1569,6 @@ func TestVerifC19(t *testing.T) {
 			}
 		}
 	})
-	// ---- E. index: every window of the 80-mers, every k-mer size 2..64 ASKED of NewKmerMap in BOTH modes
-	// (the constructor adapts a size of the wrong parity: even -> +1 sparse, odd -> -1 dense; the size it
-	// settled on is read from the map and is the k of the model), every width that holds the key
-	part("E", func() {
-		for _, ref := range refs {
-			for k := 2; k <= 64 && !expired(); k++ {
-				for _, sparse := range []bool{false, true} {
-					for _, width := range []int{64, 128, 256} {
-						if 2*k >= width {
-							continue // 1<<2k is not representable: NewKmerMap cannot build its masks
-						}
-						if !mine() {
-							continue
-						}
-						km := x.kmFor(width, k, sparse, c19kmCache)
-						if km == nil {
-							continue
-						}
-						ke := km.ksize()
-						// shorter than k (one case), then every window of length >= k
-						x.indexCheck(c19case{Kind: "index", K: k, Sparse: sparse, Width: width, Seqs: []string{ref[:ke-1]}})
-						for st := 0; st+ke <= len(ref); st++ {
-							for ln := ke; st+ln <= len(ref); ln++ {
-								x.indexCheck(c19case{Kind: "index", K: k, Sparse: sparse, Width: width, Seqs: []string{ref[st : st+ln]}})
-							}
-						}
-					}
-				}
-			}
-		}
-	})
 	// ---- Q. index built by NewKmerMap from the three 80-mers (what obikmermatch / obikmersimcount do with
 	// their references), every size asked 2..64 in both modes, every width: Query with windows of the 80-mers
 	// and with their reverse complements
@@ -1515,10 +1583,7 @@ func TestVerifC19(t *testing.T) {
 						continue
 					}
 					q := x.newQueryIndex(c19case{Kind: "query", K: k, Sparse: sparse, Width: width, Seqs: append([]string{""}, refs...)})
-					if q == nil {
-						continue
-					}
-					ke := q.km.ksize()
+					ke := q.ksize()
 					for _, ref := range refs {
 						x.queryCheck(q, ref[:ke-1])
 						for st := 0; st+ke <= len(ref); st++ {
@@ -1568,68 +1633,6 @@ func TestVerifC19(t *testing.T) {
 			}
 		}
 	})
-	// ---- B. graph, k = 2..4, unordered pairs (with repetition) of sequences, all count combinations
-	part("B", func() {
-		pairs := verifkit.AllStrings("acgt", 1, pairMax)
-		for i := 0; i < len(pairs) && !expired(); i++ {
-			if !mine() {
-				continue
-			}
-			for j := i; j < len(pairs); j++ {
-				for k := 2; k <= 4; k++ {
-					if len(pairs[i]) < k && len(pairs[j]) < k {
-						continue // nothing can enter the graph: covered by the single-sequence part
-					}
-					for _, cc := range [][]int{{1, 1}, {1, 2}, {2, 1}, {2, 2}} {
-						x.graphCheck(c19case{Kind: "graph", K: k, Seqs: []string{pairs[i], pairs[j]}, Counts: cc})
-					}
-				}
-			}
-		}
-	})
-
-	// ---- D. graph, k in {5,16,31}: windows of the 80-mers, alone and with every single-edit variant
-	part("D", func() {
-		for _, ref := range refs {
-			for _, k := range []int{5, 16, 31} {
-				for st := 0; st < len(ref) && !expired(); st += winStep {
-					for ln := k; st+ln <= len(ref); ln++ {
-						if winStep > 1 && (ln-k)%winStep != 0 && ln != k+1 && st+ln != len(ref) {
-							continue
-						}
-						if !mine() {
-							continue
-						}
-						w := ref[st : st+ln]
-						for _, cnt := range []int{1, 2} {
-							x.graphCheck(c19case{Kind: "graph", K: k, Seqs: []string{w}, Counts: []int{cnt}})
-						}
-						for _, v := range c19edits(w) {
-							for _, cc := range [][]int{{1, 1}, {2, 1}, {1, 2}} {
-								x.graphCheck(c19case{Kind: "graph", K: k, Seqs: []string{w, v}, Counts: cc})
-							}
-						}
-					}
-				}
-			}
-		}
-	})
-	// ---- B2 (thorough). graph, k = 4: all unordered pairs of sequences of length pairMax+1
-	if thorough {
-		part("B2", func() {
-			big := verifkit.AllStrings("acgt", pairMax+1, pairMax+1)
-			for i := 0; i < len(big) && !expired(); i++ {
-				if !mine() {
-					continue
-				}
-				for j := i; j < len(big); j++ {
-					for _, cc := range [][]int{{1, 1}, {1, 2}} {
-						x.graphCheck(c19case{Kind: "graph", K: 4, Seqs: []string{big[i], big[j]}, Counts: cc})
-					}
-				}
-			}
-		})
-	}
 	// ---- G2. 4-mer tables, call histories: every ordered pair of sequences of length 0..histMax through one
 	// recycled buffer / table
 	part("G2", func() {
@@ -1707,6 +1710,48 @@ func TestVerifC19(t *testing.T) {
 			}
 		}
 	})
+	// ---- I. information only: key widths that cannot hold the masks of NewKmerMap (2k = width)
+	part("I", func() {
+		for _, wk := range [][2]int{{64, 32}, {128, 64}} {
+			if !mine() {
+				continue
+			}
+			if _, p := c19newKm(wk[0], wk[1], false); p != "" {
+				r.Count(fmt.Sprintf("info_NewKmerMap[Uint%d](k=%d)_panics(unconstrained)", wk[0], wk[1]), 1)
+			}
+		}
+	})
+	// ---- E. index: every window of the 80-mers, every k-mer size 2..64 ASKED of NewKmerMap in BOTH modes
+	// (the constructor adapts a size of the wrong parity: even -> +1 sparse, odd -> -1 dense; the size it
+	// settled on is read from the map and is the k of the model), every width that holds the key
+	part("E", func() {
+		for _, ref := range refs {
+			for k := 2; k <= 64 && !expired(); k++ {
+				for _, sparse := range []bool{false, true} {
+					for _, width := range []int{64, 128, 256} {
+						if 2*k >= width {
+							continue // 1<<2k is not representable: NewKmerMap cannot build its masks
+						}
+						if !mine() {
+							continue
+						}
+						km := x.kmFor(width, k, sparse, c19kmCache)
+						if km == nil {
+							continue
+						}
+						ke := km.ksize()
+						// shorter than k (one case), then every window of length >= k
+						x.indexCheck(c19case{Kind: "index", K: k, Sparse: sparse, Width: width, Seqs: []string{ref[:ke-1]}})
+						for st := 0; st+ke <= len(ref); st++ {
+							for ln := ke; st+ln <= len(ref); ln++ {
+								x.indexCheck(c19case{Kind: "index", K: k, Sparse: sparse, Width: width, Seqs: []string{ref[st : st+ln]}})
+							}
+						}
+					}
+				}
+			}
+		}
+	})
 	// ---- K. graph, EVERY k = 2..31: windows of the 80-mers on a thin grid, alone and with each single-edit variant
 	part("K", func() {
 		krefs := refs
@@ -1745,17 +1790,68 @@ func TestVerifC19(t *testing.T) {
 			}
 		}
 	})
-	// ---- I. information only: key widths that cannot hold the masks of NewKmerMap (2k = width)
-	part("I", func() {
-		for _, wk := range [][2]int{{64, 32}, {128, 64}} {
+	// ---- B. graph, k = 2..4, unordered pairs (with repetition) of sequences, all count combinations
+	part("B", func() {
+		pairs := verifkit.AllStrings("acgt", 1, pairMax)
+		for i := 0; i < len(pairs) && !expired(); i++ {
 			if !mine() {
 				continue
 			}
-			if _, p := c19newKm(wk[0], wk[1], false); p != "" {
-				r.Count(fmt.Sprintf("info_NewKmerMap[Uint%d](k=%d)_panics(unconstrained)", wk[0], wk[1]), 1)
+			for j := i; j < len(pairs); j++ {
+				for k := 2; k <= 4; k++ {
+					if len(pairs[i]) < k && len(pairs[j]) < k {
+						continue // nothing can enter the graph: covered by the single-sequence part
+					}
+					for _, cc := range [][]int{{1, 1}, {1, 2}, {2, 1}, {2, 2}} {
+						x.graphCheck(c19case{Kind: "graph", K: k, Seqs: []string{pairs[i], pairs[j]}, Counts: cc})
+					}
+				}
 			}
 		}
 	})
+
+	// ---- D. graph, k in {5,16,31}: windows of the 80-mers, alone and with every single-edit variant
+	part("D", func() {
+		for _, ref := range refs {
+			for _, k := range []int{5, 16, 31} {
+				for st := 0; st < len(ref) && !expired(); st += winStep {
+					for ln := k; st+ln <= len(ref); ln++ {
+						if winStep > 1 && (ln-k)%winStep != 0 && ln != k+1 && st+ln != len(ref) {
+							continue
+						}
+						if !mine() {
+							continue
+						}
+						w := ref[st : st+ln]
+						for _, cnt := range []int{1, 2} {
+							x.graphCheck(c19case{Kind: "graph", K: k, Seqs: []string{w}, Counts: []int{cnt}})
+						}
+						for _, v := range c19edits(w) {
+							for _, cc := range [][]int{{1, 1}, {2, 1}, {1, 2}} {
+								x.graphCheck(c19case{Kind: "graph", K: k, Seqs: []string{w, v}, Counts: cc})
+							}
+						}
+					}
+				}
+			}
+		}
+	})
+	// ---- B2 (thorough). graph, k = 4: all unordered pairs of sequences of length pairMax+1
+	if thorough {
+		part("B2", func() {
+			big := verifkit.AllStrings("acgt", pairMax+1, pairMax+1)
+			for i := 0; i < len(big) && !expired(); i++ {
+				if !mine() {
+					continue
+				}
+				for j := i; j < len(big); j++ {
+					for _, cc := range [][]int{{1, 1}, {1, 2}} {
+						x.graphCheck(c19case{Kind: "graph", K: 4, Seqs: []string{big[i], big[j]}, Counts: cc})
+					}
+				}
+			}
+		})
+	}
 	r.Sample(c19case{Kind: "graph", K: 3, Seqs: []string{"acgtt", "acctt"}, Counts: []int{2, 1}})
 	r.Sample(c19case{Kind: "index", K: 4, Width: 64, Seqs: []string{"caaaa"}})
 	r.Sample(c19case{Kind: "index", K: 33, Sparse: true, Width: 128, Seqs: []string{c19ref80a[3:70]}})
